@@ -1,9 +1,16 @@
 """C20: edit_rules only removes base structures, and only those that fail the filter.
-Implementation = edit_rules.py as a subprocess on copies of generated rulesets,
+Implementation = edit_rules.py as a subprocess on three families of rulesets:
+  (G) small generated rulesets (harness/rulesets.py),
+  (T) rulesets freshly written by the REAL trainer.py (--prefixcount lists in which some base
+      structures are rarer than 1e-4, so that the trainer's own number formatting is what edit_rules reads),
+  (L) large generated rulesets (Grammar/grammar.txt and one terminal file from tens of KiB to > 1 MiB),
+each edited with --min_length/--max_length, --terminal_set, --regex, in place and with --copy, some twice;
 model = EditRules.v (Python's re.search supplied as a table)."""
 import hashlib
+import itertools
 import json
 import os
+import random
 import re
 import shutil
 import subprocess
@@ -11,12 +18,14 @@ import subprocess
 import common
 import impl_next
 import rulesets
+import trainer_io
 from props.C04 import collect
 
 ID = "C20"
 TRUSTED = ["Python's re module (re.search of the user's regexes is an oracle table; re.findall('[A-Z][0-9]{0,3}') is modelled)",
            "shutil.copytree, file system"]
-ASSUMES = ["grammar.txt lines are label-concatenation<TAB>repr(float) with labels [A-Z][0-9]{1,3} (what the trainer writes)",
+ASSUMES = ["grammar.txt lines are label-concatenation<TAB>repr(float) with labels [A-Z][0-9]{1,3} (what the trainer writes: "
+           "evaluated by Coq (check_wf, theorem C20_filter_checked) on every grammar.txt the real trainer writes during the run)",
            "values behind a length-indexed label have that length (C05/C06)"]
 
 BASE = {"A": "passwordqwertyzx", "D": "1234567890123", "O": "!@#$%^&*()", "K": "1qaz2wsx3edc"}
@@ -83,6 +92,20 @@ def tree_hash(d, skip=()):
     return out
 
 
+def tree_inodes(d):
+    """(device, inode) of every file below d; os.stat follows symbolic links, so a link to a file IS that file"""
+    out = {}
+    for root, _, files in os.walk(d):
+        for f in files:
+            p = os.path.join(root, f)
+            try:
+                st = os.stat(p)
+            except OSError:
+                continue
+            out[os.path.relpath(p, d)] = (st.st_dev, st.st_ino)
+    return out
+
+
 def read_lines(p):
     out = []
     for line in open(p, encoding="utf-8").read().split("\n"):
@@ -111,35 +134,93 @@ class GuesserFailed(Exception):
     pass
 
 
-def guess_lengths(code_rules_dir, name, sc):
-    """lengths of all non-Markov guesses per base structure of the (edited) ruleset"""
+def guess_lengths(code_rules_dir, name, sc, skip_markov=False, bounds=None):
+    """lengths of all non-Markov guesses per base structure of the (edited) ruleset: (per, capped, expl); with bounds
+    (mn, mx), the guesses that are too long ONLY through case expansion (R23) are listed in expl instead"""
     try:
-        return _guess_lengths(code_rules_dir, name, sc)
+        return _guess_lengths(code_rules_dir, name, sc, skip_markov, bounds)
     except Exception as e:
         raise GuesserFailed("%s: %s" % (type(e).__name__, e))
 
 
-def _guess_lengths(code_rules_dir, name, sc):
+def expansion_explains(g, pt, mn, mx):
+    """The guesses of pre-terminal pt whose excess over the bounds is fully explained by case expansion (R23), by the
+    property's own product of the loaded groups: the same choice of values with the alpha words as stored in the files
+    (no mask applied) is within [mn, mx], and the guess is that choice with str.upper() applied where the mask says U.
+    In that product the only step that can change a length is upper() of a letter whose upper() has more than one
+    character ('ß' -> 'SS'); a value longer than its label, a mask of another length, anything appended: not explained."""
+    choices = []
+    i = 0
+    while i < len(pt):
+        t, ix = pt[i]
+        vals = g.grammar[t][ix]["values"]
+        if t[0] == "A" and i + 1 < len(pt) and pt[i + 1][0][0] == "C":
+            masks = g.grammar[pt[i + 1][0]][pt[i + 1][1]]["values"]
+            choices.append([(w, "".join(c if mc == "L" else c.upper() for c, mc in zip(w, m)))
+                            for w in vals for m in masks if len(m) == len(w) and set(m) <= {"L", "U"}])
+            i += 2
+        else:
+            choices.append([(v, v) for v in vals])
+            i += 1
+    out = {}
+    for combo in itertools.product(*choices):
+        stored = "".join(a for a, _ in combo)
+        if len(stored) >= mn and (not mx or len(stored) <= mx):
+            out.setdefault("".join(b for _, b in combo), stored)
+    return out
+
+
+def _guess_lengths(code_rules_dir, name, sc, skip_markov=False, bounds=None):
     from lib_guesser.pcfg_grammar import PcfgGrammar
     g, _, _ = common.quiet_call(PcfgGrammar, name, os.path.join(code_rules_dir, name), "4.7", None, True, False, False, "Grammar")
     items, _, capped, _ = impl_next.full_stream(g, cap=3000, check_heap=False)
-    per = {}
+    per, expl = {}, {}
     for it in items:
+        if skip_markov and any(t == "M" for t, _ in it["pt"]):
+            # a trained OMEN grammar: the Markov pre-terminals stand for millions of guesses, and the property excludes them
+            continue
         key = "".join(t for t, _ in it["pt"] if t[0] != "C")
         res = collect(g, it["pt"], None)
-        for s in (res[0] if res else []):
+        guesses = res[0] if res else []
+        ok = None
+        for s in guesses:
+            if bounds and bounds[1] and len(s) > bounds[1]:
+                if ok is None:
+                    ok = expansion_explains(g, it["pt"], bounds[0], bounds[1]) if not any(t == "M" for t, _ in it["pt"]) else {}
+                if s in ok:
+                    expl.setdefault(key, []).append((s, ok[s]))
+                    continue
             per.setdefault(key, set()).add(len(s))
-    return per, capped
+    return per, capped, expl
 
 
-def judge(orig, after_lines, opt, per, replay, step=""):
+TOKS = re.compile(r"[A-Z][0-9]*")
+
+
+def label_length(s):
+    """length of every guess of structure s by the labels alone; None where the labels do not determine it
+    (context labels, R13; the Markov line; labels the property does not speak about)"""
+    total = 0
+    for x in TOKS.findall(s):
+        if x[0] == "Y":
+            total += 4
+        elif x[0] in "ADOK" and x[1:]:
+            total += int(x[1:])
+        else:
+            return None
+    return total
+
+
+def judge(orig, after_lines, opt, per, replay, step="", expl=None):
     """one edit: `orig` -> `after_lines` under `opt`; `per` = lengths of all non-Markov guesses of the edited ruleset"""
     vio = []
     kept = set(a for a, _ in after_lines)
     # survivors are a sub-list of the original, in order, text unchanged
     it = iter(orig)
     if not all(any(x == y for y in it) for x in after_lines):
-        vio.append({"sig": "C20:not-a-sublist" + step, "what": "edited list is not an order-preserving sub-list of the original: %r" % after_lines[:4],
+        osub = set(orig)
+        odd = [x for x in after_lines if x not in osub][:4] or after_lines[:4]
+        vio.append({"sig": "C20:not-a-sublist" + step, "what": "edited list is not an order-preserving sub-list of the original: %r" % (odd,),
                     "replay": replay})
     mn, mx = opt.get("min", 0), opt.get("max", 0)
     if "min" in opt:
@@ -151,36 +232,44 @@ def judge(orig, after_lines, opt, per, replay, step=""):
                             "what": "kept structure %s yields guesses of length %s outside [%d,%s]" % (s, sorted(bad)[:4], mn, mx or "inf"),
                             "replay": replay})
                 break
-    toks = lambda s: re.findall(r"[A-Z][0-9]*", s)
+        for s, gs in (expl or {}).items():
+            # too long, and fully explained by upper() of a letter whose upper() has more than one character (R23)
+            g0, stored = gs[0]
+            vio.append({"sig": "C20:length-bound:case-expansion",
+                        "what": "kept structure %s yields the guess %r of length %d outside [%d,%s]: the values as stored (%r, length %d) are within, "
+                                "the capitalisation mask makes it longer (%d such guess(es))" % (s, g0, len(g0), mn, mx or "inf", stored, len(stored), len(gs)),
+                        "replay": replay})
+            break
+    toks = TOKS.findall
+    st = [x.upper() for x in opt["set"].split(",")] if "set" in opt else None
+    rxs = opt["regex"].split(",") if "regex" in opt else []
     # structures removed although they pass every requested filter (by the property's own reading)
     for s, ptxt in orig:
         if s in kept:
             continue
         ok_len = True
         if "min" in opt and s != "M":
-            t = toks(s)
-            if "X1" in t:
+            L = label_length(s)
+            if L is None:
                 continue        # context labels: length not determined by the label (handled above)
-            L = sum(4 if x[0] == "Y" else int(x[1:]) for x in t)
             ok_len = L >= mn and (not mx or L <= mx)
-        ok_set = True
-        if "set" in opt:
-            st = [x.upper() for x in opt["set"].split(",")]
-            ok_set = all(x[0] in st for x in toks(s))
-        ok_re = True
-        if "regex" in opt:
-            ok_re = all(re.search(rx, s) for rx in opt["regex"].split(","))
+        ok_set = st is None or all(x[0] in st for x in toks(s))
+        ok_re = all(re.search(rx, s) for rx in rxs)
         if ok_len and ok_set and ok_re:
             vio.append({"sig": "C20:removed-although-passing" + step, "what": "structure %s passes every requested filter but was removed" % s, "replay": replay})
             break
-    for s in kept:
+    for s in sorted(kept):
         t = toks(s)
         bad = False
-        if "set" in opt:
-            st = [x.upper() for x in opt["set"].split(",")]
+        if st is not None:
             bad |= not all(x[0] in st for x in t)
-        if "regex" in opt:
-            bad |= not all(re.search(rx, s) for rx in opt["regex"].split(","))
+        if rxs:
+            bad |= not all(re.search(rx, s) for rx in rxs)
+        if "min" in opt and s != "M":
+            # the labels alone (no guess needed): a structure of letters, digits, specials, walks and years has exactly this length
+            L = label_length(s)
+            if L is not None and L > 0 and (L < mn or (mx and L > mx)):
+                bad = True
         if bad:
             vio.append({"sig": "C20:kept-although-failing" + step, "what": "structure %s fails a requested filter but was kept" % s, "replay": replay})
             break
@@ -214,16 +303,245 @@ def coq_case(orig, after_lines, opt):
         cfg, pairs(orig), impl)
 
 
+class Env:
+    """scratch copy of the code tree the tools are run in"""
+
+    def __init__(self):
+        self.sc = common.scratch()
+        self.code = common.copy_code_tree(common.scratch())
+        self.rules = os.path.join(self.code, "Rules")
+        self.env = common.subenv()
+        self.env["PYTHONPATH"] = self.code
+
+
+def edit_step(E, name, opt, copy, replay, step="", lengths=True, skip_markov=False, timeout=60):
+    """ONE run of edit_rules.py on Rules/<name> (with --copy <copy> when given) and every direct oracle of the property on it.
+    Returns {"vio", "orig", "after" (None: it raised), "target", "raised"}.  `lengths`: also load the edited ruleset with
+    the real guesser and measure every non-Markov guess (skipped for the large rulesets, which are judged by their lines)."""
+    vio = []
+    rd = os.path.join(E.rules, name)
+    before = tree_hash(rd)
+    orig = read_lines(os.path.join(rd, "Grammar", "grammar.txt"))
+    gsize = os.path.getsize(os.path.join(rd, "Grammar", "grammar.txt"))
+    p = subprocess.run(edit_args(name, opt, copy), cwd=E.code, env=E.env, stdout=subprocess.PIPE, stderr=subprocess.PIPE, timeout=timeout)
+    tname = copy or name
+    target = os.path.join(E.rules, tname)
+    raised = p.returncode != 0
+    other = lambda h: {k: v for k, v in h.items() if k != "Grammar/grammar.txt"}
+    if copy:
+        now = tree_hash(rd)
+        if now != before:
+            ch = sorted(k for k in set(now) | set(before) if now.get(k) != before.get(k))
+            vio.append({"sig": "C20:copy-touched-source", "what": "--copy changed the source ruleset: %s (Grammar/grammar.txt of the source: %d bytes before)"
+                        % (ch[:3], gsize), "replay": replay})
+        if os.path.isdir(target):
+            if other(tree_hash(target)) != other(before):
+                vio.append({"sig": "C20:other-file-touched", "what": "files other than Grammar/grammar.txt differ in the copy", "replay": replay})
+            # the copy must be a copy: a file that IS a file of the source (hard link, symbolic link) changes the source
+            # ruleset as soon as anything writes to the copy
+            src_ino = {v: k for k, v in tree_inodes(rd).items()}
+            shared = sorted((k, src_ino[v]) for k, v in tree_inodes(target).items() if v in src_ino)
+            if shared:
+                vio.append({"sig": "C20:copy-shares-file-with-source",
+                            "what": "--copy: %d file(s) of the copy are the same file (device, inode) as a file of the source ruleset, e.g. %s (%d bytes): "
+                                    "writing to the copy writes to the source" % (len(shared), shared[0][0], os.path.getsize(os.path.join(target, shared[0][0]))),
+                            "replay": replay})
+    else:
+        a = other(tree_hash(rd))
+        b = other(before)
+        if a != b:
+            vio.append({"sig": "C20:other-file-touched", "what": "edit_rules changed %s" % sorted(set(a.items()) ^ set(b.items()))[:3], "replay": replay})
+    after = None
+    if raised:
+        vio.append({"sig": "C20:raised" + step, "what": "edit_rules.py failed: %s" % p.stderr.decode("utf-8", "replace")[-200:], "replay": replay})
+    else:
+        try:
+            after = read_lines(os.path.join(target, "Grammar", "grammar.txt"))
+        except Exception as e:      # noqa: BLE001 - what edit_rules wrote is not a list of structure<TAB>probability lines
+            vio.append({"sig": "C20:unreadable-grammar" + step, "what": "Grammar/grammar.txt after the edit cannot be read as structure<TAB>probability lines: %r" % (e,),
+                        "replay": replay})
+    if after is not None:
+        per, expl = {}, {}
+        if lengths:
+            try:
+                per, _, expl = guess_lengths(E.rules, tname, E.sc, skip_markov, (opt["min"], opt["max"]) if "min" in opt else None)
+            except GuesserFailed as e:
+                # no guess at all can be generated from the edited ruleset
+                vio.append({"sig": "C20:guesser-fails-on-edited-ruleset", "what": "the guesser cannot generate from the %sedited ruleset: %s"
+                            % ("twice " if step else "", e), "replay": replay})
+        vio += judge(orig, after, opt, per, replay, step, expl)
+    return {"vio": vio, "orig": orig, "after": after, "target": tname, "raised": raised}
+
+
+# ---------------------------------------------------------------- (T) rulesets written by the real trainer
+
+TRAIN_KINDS = ["word", "wd", "wd", "dw", "wsd", "wsd", "walk", "year", "ctx", "multi", "sym", "digits", "email", "site", "na", "mixed"]
+
+
+# lower-case letters whose upper() has more than one character (known finding R23: a capitalisation mask makes the guess longer)
+EXPANDING = ["\u00df", "\u0149", "\u01f0", "\ufb01", "\ufb02", "\u0390", "\u0587"]      # ß ŉ ǰ ﬁ ﬂ ΐ և
+
+
+def make_training(rng, total, expanding=False):
+    """a --prefixcount training list standing for about `total` passwords: a few very frequent ones and many that
+    occur 1-3 times, so that the probabilities of the rare base structures are below 1e-4 and the trainer has to write
+    them in exponent form - whatever form that is, it is what edit_rules.py is given to read"""
+    def pw(kinds):
+        for _ in range(50):
+            p = trainer_io.gen_password(rng, "utf-8", rng.choice(kinds))
+            if p and p == p.strip() and "\t" not in p and not any(c in p for c in "\r\n\x0b\x0c\x1c\x1d\x1e\x85\u2028\u2029") \
+                    and all(len(c.lower()) == 1 for c in p):
+                return p
+        return "password1"
+    lines = []
+    share = [0.86, 0.09, 0.05][:rng.randint(1, 3)]
+    for f in share:
+        lines.append([max(1, int(total * f / sum(share))), pw(["wd", "word", "wsd", "year"])])
+    for _ in range(rng.randint(14, 30)):
+        lines.append([rng.choice([1, 1, 1, 1, 2, 2, 3]), pw(TRAIN_KINDS)])
+    spec = {"lines": lines, "coverage": rng.choice([0.6, 0.6, 0.5, 0.9]), "ngram": rng.choice([4, 4, 3, 2])}
+    if expanding:
+        # a word ending in such a letter, and a word of the same length ending in a capital: the mask L..LU exists for that length
+        x, w, d = rng.choice(EXPANDING), rng.choice(["a", "lov", "pass", "secre"]), rng.choice(["1", "42", "007"])
+        w2 = "".join(rng.choice("bcdfgh") for _ in w)
+        at = rng.randint(len(share), len(lines))
+        lines[at:at] = [[rng.choice([1, 2]), w + x + d], [1, w2 + "Z" + rng.choice(["3", "77"])]]
+        spec["focus"] = len(w) + 1 + len(d)       # the label length of the first of the two
+    return spec
+
+
+def train(E, spec, name):
+    """the real trainer.py (subprocess) writes Rules/<name>; returns an error text or None"""
+    tf = os.path.join(E.sc, name + ".train.txt")
+    with open(tf, "w", encoding="utf-8", newline="\n") as f:
+        for c, p in spec["lines"]:
+            f.write("%d %s\n" % (c, p))
+    shutil.rmtree(os.path.join(E.rules, name), ignore_errors=True)
+    rc, out, err, _ = trainer_io.train_cli(E.code, tf, name, "utf-8", coverage=spec["coverage"], prefixcount=True,
+                                           ngram=spec["ngram"], timeout=900)
+    if rc != 0 or not os.path.isfile(os.path.join(E.rules, name, "Grammar", "grammar.txt")):
+        return "trainer.py failed (rc %d): %s" % (rc, err[-300:])
+    return None
+
+
+def trainer_plans(rng, orig, extra, focus=None):
+    """edits of one trained ruleset: [(options, copy?, second options or None)] - the three forms of the tool sequence first"""
+    lens = sorted(set(L for L in (label_length(s) for s, _ in orig) if L))
+    mid = lens[len(lens) // 2] if lens else 8
+    bounds = lambda: rng.choice([(max(1, mid - 2), mid + 2), (mid, 0), (0, mid), (mid, mid), (lens[0] if lens else 1, lens[-1] if lens else 30)])
+    sets = ["A,D,M", "A,D,O,K,X,Y,M", "a,d,o,y", "A,D,O,K,Y"]
+    plans = []
+    if focus:
+        plans.append(({"min": focus, "max": focus}, True, None))
+    mn, mx = bounds()
+    plans.append(({"min": mn, "max": mx}, True, None))
+    plans.append(({"set": rng.choice(sets)}, True, options(rng)))
+    mn, mx = bounds()
+    plans.append(({"min": mn, "max": mx}, False, options(rng)))
+    for _ in range(extra):
+        o = options(rng)
+        if rng.random() < 0.5 and "min" in o:
+            o["min"], o["max"] = bounds()
+        plans.append((o, rng.random() < 0.5, options(rng) if rng.random() < 0.5 else None))
+    return plans
+
+
+# ---------------------------------------------------------------- (L) large rulesets
+
+def large_grammar(spec, labels):
+    """deterministic from spec: distinct base structures until grammar.txt has spec['bytes'] bytes, one Markov line"""
+    r = random.Random(spec["seed"])
+    seen, structs, size = set(), [], 0
+    while size < spec["bytes"]:
+        s = "".join(r.choice(labels) for _ in range(r.randint(2, 6)))
+        if s in seen:
+            continue
+        seen.add(s)
+        structs.append(s)
+        size += len(s) + 24
+    structs.insert(r.randrange(len(structs) + 1), "M")
+    ps = sorted((r.random() for _ in structs), reverse=True)
+    tot = sum(ps)
+    return [(s, p / tot) for s, p in zip(structs, ps)]
+
+
+def large_values(spec):
+    """a terminal file of at least spec['bytes'] bytes: values of spec['len'] characters"""
+    out, size, i = [], 0, 0
+    while size < spec["bytes"]:
+        v, p = "w" + ("%0*d" % (spec["len"] - 1, i)), 1.0 / (i + 2)
+        out.append((v, p))
+        size += len(v) + len(repr(p)) + 2
+        i += 1
+    return out
+
+
+def make_large(rng, name, gbytes, tbytes):
+    """a generated ruleset whose Grammar/grammar.txt has about gbytes bytes and one of whose terminal files has about
+    tbytes bytes; the replay keeps the recipe (seed, sizes), not the lines"""
+    rs = make_ruleset(rng, name)
+    labels = [k for k in rs["files"] if k[0] != "C"]
+    spec = {"seed": rng.randrange(2 ** 32), "bytes": gbytes}
+    if tbytes:
+        spec["terminal"] = {"label": "A9", "len": 9, "bytes": tbytes}
+    rs["grammar"] = []
+    return rs, spec, labels
+
+
+def fill_large(rs, spec):
+    rs = dict(rs, files=dict(rs["files"]))
+    labels = [k for k in rs["files"] if k[0] != "C"]
+    t = spec.get("terminal")
+    if t:
+        rs["files"][t["label"]] = large_values(t)
+        rs["files"]["C%d" % t["len"]] = [("L" * t["len"], 1.0)]
+        if t["label"] not in labels:
+            labels.append(t["label"])
+    rs["grammar"] = large_grammar(spec, labels)
+    return rs
+
+
+def build_source(E, inp, name):
+    """write the source ruleset of a case (replay dict) as Rules/<name>; returns an error text or None"""
+    shutil.rmtree(os.path.join(E.rules, name), ignore_errors=True)
+    if "train" in inp:
+        return train(E, inp["train"], name)
+    rs = inp["ruleset"]
+    if "large" in inp:
+        rs = fill_large(rs, inp["large"])
+    rulesets.write_ruleset(rs, os.path.join(E.rules, name))
+    return None
+
+
+def wf_shards(trained):
+    """the hypotheses of C20_filter (check_wf of EditCorr.v) on the lines of every grammar.txt the trainer wrote"""
+    shards = []
+    for name, lines in trained:
+        cases = ["(%s, %s)" % (common.cstr(a), common.cstr(b.strip())) for a, b in lines]
+        for s in range(0, len(cases), 300):
+            src = ["From Coq Require Import List Arith Bool NArith.", "From Pcfg Require Import EditRules EditCorr.", "Import ListNotations.",
+                   "Definition cases : list (str * str) := [", ";\n".join(cases[s:s + 300]), "].",
+                   "Eval vm_compute in (failing check_wf_line cases)."]
+            shards.append(("wf_%s_%d" % (name, s // 300), "\n".join(src)))
+    return shards
+
+
 def run(ctx):
     n = ctx.scale(40, 300)
-    sc = common.scratch()
-    code = common.copy_code_tree(common.scratch())
-    rules = os.path.join(code, "Rules")
-    env = common.subenv()
-    env["PYTHONPATH"] = code
+    E = Env()
+    rules = E.rules
     vio, samples, cases = [], [], []
     dist = {"runs": 0, "with_copy": 0, "with_X": 0, "with_markov": 0, "raised": 0, "options": {}}
     seen, nontrivial = set(), 0
+
+    def count(opt, copy, st):
+        dist["runs"] += 1
+        dist["with_copy"] += bool(copy)
+        dist["raised"] += st["raised"]
+        for k in opt:
+            dist["options"][k] = dist["options"].get(k, 0) + 1
+
+    # ---------------- (G) small generated rulesets
     for r in range(n):
         name = "E%d" % r
         rs = make_ruleset(ctx.rng, name)
@@ -231,67 +549,22 @@ def run(ctx):
         rulesets.write_ruleset(rs, rd)
         opt = options(ctx.rng)
         copy = ("E%dc" % r) if ctx.rng.random() < 0.35 else None
-        args = edit_args(name, opt, copy)
-        before = tree_hash(rd)
-        orig = read_lines(os.path.join(rd, "Grammar", "grammar.txt"))
-        p = subprocess.run(args, cwd=code, env=env, stdout=subprocess.PIPE, stderr=subprocess.PIPE, timeout=60)
-        dist["runs"] += 1
-        dist["with_copy"] += bool(copy)
-        for k in opt:
-            dist["options"][k] = dist["options"].get(k, 0) + 1
-        target = os.path.join(rules, copy) if copy else rd
         replay = {"ruleset": rs, "options": opt, "copy": bool(copy)}
-        raised = p.returncode != 0
-        dist["raised"] += raised
-        after_lines = None if raised else read_lines(os.path.join(target, "Grammar", "grammar.txt"))
-        # ---- direct oracles
-        if copy:
-            if tree_hash(rd) != before:
-                vio.append({"sig": "C20:copy-touched-source", "what": "--copy changed the source ruleset", "replay": replay})
-            if os.path.isdir(target):
-                a = tree_hash(target, skip=("Grammar/grammar.txt",))
-                b = {k: v for k, v in before.items() if k != "Grammar/grammar.txt"}
-                if a != b:
-                    vio.append({"sig": "C20:other-file-touched", "what": "files other than Grammar/grammar.txt differ in the copy", "replay": replay})
-        else:
-            a = tree_hash(rd, skip=("Grammar/grammar.txt",))
-            b = {k: v for k, v in before.items() if k != "Grammar/grammar.txt"}
-            if a != b:
-                vio.append({"sig": "C20:other-file-touched", "what": "edit_rules changed %s" % sorted(set(a.items()) ^ set(b.items()))[:3], "replay": replay})
-        if raised:
-            vio.append({"sig": "C20:raised", "what": "edit_rules.py failed: %s" % p.stderr.decode()[-200:], "replay": replay})
-        else:
-            try:
-                per, capped = guess_lengths(rules, os.path.basename(target), sc)
-            except GuesserFailed as e:
-                # no guess at all can be generated from the edited ruleset
-                vio.append({"sig": "C20:guesser-fails-on-edited-ruleset", "what": "the guesser cannot generate from the edited ruleset: %s" % e, "replay": replay})
-                per = {}
-            vio += judge(orig, after_lines, opt, per, replay)
+        st = edit_step(E, name, opt, copy, replay)
+        count(opt, copy, st)
+        vio += st["vio"]
+        orig, after_lines, target = st["orig"], st["after"], os.path.join(rules, st["target"])
+        if after_lines is not None:
             # ---- a second edit of the ruleset just edited (what the first edit wrote is the second one's input)
             if after_lines and r % 2 == 0:
                 opt2 = options(ctx.rng)
-                tname = os.path.basename(target)
-                before2 = tree_hash(target)
-                p2 = subprocess.run(edit_args(tname, opt2), cwd=code, env=env, stdout=subprocess.PIPE, stderr=subprocess.PIPE, timeout=60)
                 dist["second_edits"] = dist.get("second_edits", 0) + 1
                 replay2 = {"ruleset": rs, "options": opt, "copy": bool(copy), "then": opt2}
-                if p2.returncode != 0:
-                    vio.append({"sig": "C20:raised:second-edit", "what": "second edit_rules.py run failed: %s" % p2.stderr.decode()[-200:], "replay": replay2})
-                    cases.append(coq_case(after_lines, None, opt2))
-                else:
-                    after2 = read_lines(os.path.join(target, "Grammar", "grammar.txt"))
-                    try:
-                        per2, _ = guess_lengths(rules, tname, sc)
-                    except GuesserFailed as e:
-                        vio.append({"sig": "C20:guesser-fails-on-edited-ruleset", "what": "the guesser cannot generate from the twice edited ruleset: %s" % e, "replay": replay2})
-                        per2 = {}
-                    vio += judge(after_lines, after2, opt2, per2, replay2, ":second-edit")
-                    a2 = tree_hash(target, skip=("Grammar/grammar.txt",))
-                    if a2 != {k: v for k, v in before2.items() if k != "Grammar/grammar.txt"}:
-                        vio.append({"sig": "C20:other-file-touched", "what": "the second edit changed files other than Grammar/grammar.txt", "replay": replay2})
-                    cases.append(coq_case(after_lines, after2, opt2))
-                    dist["second_edits_removing"] = dist.get("second_edits_removing", 0) + (len(after2) < len(after_lines))
+                st2 = edit_step(E, st["target"], opt2, None, replay2, ":second-edit")
+                vio += st2["vio"]
+                cases.append(coq_case(after_lines, st2["after"], opt2))
+                if st2["after"] is not None:
+                    dist["second_edits_removing"] = dist.get("second_edits_removing", 0) + (len(st2["after"]) < len(after_lines))
         hasx = any("X" in s for s, _ in orig)
         dist["with_X"] += hasx
         dist["with_markov"] += any(s == "M" for s, _ in orig)
@@ -306,6 +579,114 @@ def run(ctx):
         shutil.rmtree(rd, ignore_errors=True)
         if copy:
             shutil.rmtree(target, ignore_errors=True)
+
+    import time
+    t0 = time.time()
+    secs = dist["seconds"] = {"G": round(t0 - ctx.t0, 1)}
+    # ---------------- (T) the real trainer writes the ruleset, edit_rules.py edits it, the real guesser loads it
+    trained = []
+    dt = {"trainer_runs": 0, "runs_with_case_expanding_letters": 0, "edits": 0, "lines": 0, "lines_in_exponent_form": 0, "edits_removing_some": 0, "totals": []}
+    totals = [ctx.rng.randint(14000, 24000), ctx.rng.randint(24000, 40000)] if ctx.tier != "thorough" else \
+        [ctx.rng.randint(14000, 60000) for _ in range(7)] + [300000]
+    for k, total in enumerate(totals):
+        spec = make_training(ctx.rng, total, expanding=(k % 4 == 0))
+        focus = spec.pop("focus", None)
+        name = "TR%d" % k
+        err = train(E, spec, name)
+        dt["trainer_runs"] += 1
+        dt["totals"].append(sum(c for c, _ in spec["lines"]))
+        if err:
+            # C20 is not about the trainer; without a ruleset there is nothing to edit (C07/C19 own this)
+            ctx.note("stage T: " + err)
+            dt["trainer_failed"] = dt.get("trainer_failed", 0) + 1
+            continue
+        src = os.path.join(rules, name)
+        pristine = tree_hash(src)
+        orig0 = read_lines(os.path.join(src, "Grammar", "grammar.txt"))
+        trained.append((name, orig0))
+        dt["lines"] += len(orig0)
+        dt["lines_in_exponent_form"] += sum(1 for _, b in orig0 if "e" in b.lower())
+        dt["runs_with_case_expanding_letters"] += any(len(c.upper()) != 1 for _, p in spec["lines"] for c in p)
+        if len(samples) < 5:
+            samples.append({"trained_from": spec["lines"][:6], "grammar.txt": ["%s\t%s" % x for x in orig0[:3] + orig0[-3:]]})
+        for j, (opt, with_copy, opt2) in enumerate(trainer_plans(ctx.rng, orig0, ctx.scale(3, 8), focus)):
+            base = {"train": spec, "options": opt, "copy": with_copy}
+            if with_copy:
+                sname, copy = name, "%sc%d" % (name, j)
+            else:
+                # in place: on a byte-identical duplicate made here, so that the trained ruleset serves every edit
+                sname, copy = "%si%d" % (name, j), None
+                shutil.copytree(src, os.path.join(rules, sname))
+            st = edit_step(E, sname, opt, copy, base, skip_markov=True)
+            count(opt, with_copy, st)
+            dt["edits"] += 1
+            vio += st["vio"]
+            cases.append(coq_case(st["orig"], st["after"], opt))
+            if st["after"] is not None:
+                some = 0 < len(st["after"]) < len(st["orig"])
+                dt["edits_removing_some"] += some
+                nontrivial += some
+                if opt2 is not None and st["after"]:
+                    st2 = edit_step(E, st["target"], opt2, None, dict(base, then=opt2), ":second-edit", skip_markov=True)
+                    dist["second_edits"] = dist.get("second_edits", 0) + 1
+                    vio += st2["vio"]
+                    cases.append(coq_case(st["after"], st2["after"], opt2))
+            for d in set([st["target"], sname]) - {name}:
+                shutil.rmtree(os.path.join(rules, d), ignore_errors=True)
+            if tree_hash(src) != pristine:
+                break       # reported above (copy-touched-source); the trained ruleset is no longer what the trainer wrote
+        shutil.rmtree(src, ignore_errors=True)
+    dist["trainer_stage"] = dt
+    secs["T"] = round(time.time() - t0, 1)
+    t0 = time.time()
+
+    # ---------------- (L) large rulesets: grammar.txt and a terminal file of tens of KiB up to more than 1 MiB
+    KiB = 1024
+    sizes = [(ctx.rng.randint(1250, 1500) * KiB, ctx.rng.randint(1100, 1400) * KiB), (ctx.rng.randint(70, 500) * KiB, 0)]
+    if ctx.tier == "thorough":
+        sizes += [(ctx.rng.randint(2100, 4200) * KiB, ctx.rng.randint(2100, 3000) * KiB), (ctx.rng.randint(520, 1020) * KiB, ctx.rng.randint(520, 1020) * KiB),
+                  (ctx.rng.randint(1030, 1200) * KiB, 0), (ctx.rng.randint(16, 70) * KiB, ctx.rng.randint(1030, 1200) * KiB)]
+    dl = {"rulesets": 0, "edits": 0, "grammar_bytes": [], "largest_terminal_bytes": [], "structures": [], "edits_removing_some": 0}
+    for k, (gbytes, tbytes) in enumerate(sizes):
+        name = "L%d" % k
+        rs, spec, labels = make_large(ctx.rng, name, gbytes, tbytes)
+        base0 = {"ruleset": rs, "large": spec}
+        build_source(E, base0, name)
+        src = os.path.join(rules, name)
+        dl["rulesets"] += 1
+        dl["grammar_bytes"].append(os.path.getsize(os.path.join(src, "Grammar", "grammar.txt")))
+        dl["largest_terminal_bytes"].append(max(os.path.getsize(os.path.join(src, "Alpha", f)) for f in os.listdir(os.path.join(src, "Alpha"))))
+        big = spec.get("terminal", {}).get("label")
+        # with --copy: bounds; a terminal set / a regex that speaks about the label of the large terminal file; then in place, twice
+        tsets = ["A,D,M", "A,D,O,Y,M", "a,d"]
+        rxs = (["%s" % big, "^%s" % big, "%s$" % big] if big else []) + ["^A", "D[0-9]+$", "^[ADM]"]
+        plans = [({"min": ctx.rng.choice([5, 8, 10]), "max": ctx.rng.choice([12, 16, 0])}, True, None),
+                 (ctx.rng.choice([{"set": ctx.rng.choice(tsets)}, {"regex": ctx.rng.choice(rxs)},
+                                  {"set": ctx.rng.choice(tsets), "regex": ctx.rng.choice(rxs)}]), True, None),
+                 (options(ctx.rng), False, options(ctx.rng))]
+        for j, (opt, with_copy, opt2) in enumerate(plans):
+            base = dict(base0, options=opt, copy=with_copy)
+            copy = ("%sc%d" % (name, j)) if with_copy else None
+            st = edit_step(E, name, opt, copy, base, lengths=False, timeout=600)
+            count(opt, with_copy, st)
+            dl["edits"] += 1
+            vio += st["vio"]
+            if j == 0:
+                dl["structures"].append(len(st["orig"]))
+            if st["after"] is not None:
+                some = 0 < len(st["after"]) < len(st["orig"])
+                dl["edits_removing_some"] += some
+                nontrivial += some
+                if opt2 is not None and st["after"]:
+                    st2 = edit_step(E, st["target"], opt2, None, dict(base, then=opt2), ":second-edit", lengths=False, timeout=600)
+                    dist["second_edits"] = dist.get("second_edits", 0) + 1
+                    vio += st2["vio"]
+            if copy:
+                shutil.rmtree(os.path.join(rules, copy), ignore_errors=True)
+        shutil.rmtree(src, ignore_errors=True)
+    dist["large_stage"] = dl
+    secs["L"] = round(time.time() - t0, 1)
+
     shards = []
     per = 40
     for s in range(0, len(cases), per):
@@ -313,53 +694,59 @@ def run(ctx):
                "Definition cases : list (list (str * str * bool) * config * list (str * str) * option (list (str * str))) := [",
                ";\n".join(cases[s:s + per]), "].", "Eval vm_compute in (failing check_edit cases)."]
         shards.append(("s%03d" % (s // per), "\n".join(src)))
+    shards += wf_shards(trained)
     corr = []
     for name, idx, log in common.run_case_shards("C20", shards):
-        if idx is None:
+        if name.startswith("wf_"):
+            tr = dict(trained)[name.split("_")[1]]
+            off = int(name.split("_")[2]) * 300
+            if idx is None:
+                corr.append(("trainer-lines:" + name, False, log[-800:]))
+            elif idx:
+                corr.append(("trainer-lines:" + name, False,
+                             "grammar.txt as the trainer wrote it does not satisfy the hypotheses of C20_filter (structure = concatenation of its labels, "
+                             "no upper-case letter in the probability text), e.g. line %r" % ("%s\t%s" % tr[off + idx[0]],)))
+            else:
+                corr.append(("trainer-lines:" + name, True, ""))
+        elif idx is None:
             corr.append(("edit:" + name, False, log[-800:]))
         elif idx:
             corr.append(("edit:" + name, False, "model edit and edit_rules.py differ for cases %s" % idx[:10]))
         else:
             corr.append(("edit:" + name, True, ""))
-    rule = ("generated rulesets with multi-digit lengths (A10, A12, D11), years, context labels, keyboard walks and a Markov line; "
+    rule = ("(G) generated rulesets with multi-digit lengths (A10, A12, D11), years, context labels, keyboard walks and a Markov line; "
             "edit_rules.py as a subprocess with combinations of --min_length/--max_length, --terminal_set (incl. lower-case), --regex and "
             "--copy, every second ruleset edited a second time with fresh options; 'other' values beginning / ending with a blank "
             "(space, NBSP, U+3000); grammar.txt before/after, directory hashes, and the lengths of ALL non-Markov guesses of the edited ruleset; "
+            "(T) rulesets written by the real trainer.py from --prefixcount lists standing for 14000-40000 passwords (thorough: up to 300000) in which "
+            "most base structures are rarer than 1e-4, each edited with --copy and in place (bounds around the lengths present, terminal sets, "
+            "regexes), half of them twice, loaded by the real guesser; the trainer's lines are also tested against the hypotheses of C20_filter by Coq; "
+            "the first list always holds a word ending in a letter whose upper() is longer than the letter (ss-ligature, fi-ligature, ...) beside a word of that "
+            "length ending in a capital, and is edited with min = max = that structure's length (R23; reported as case-expansion only when the "
+            "property's own product of the loaded groups explains the whole excess); "
+            "(L) generated rulesets whose grammar.txt has 70 KiB-1.5 MiB (thorough: up to 4 MiB) and one of whose terminal files has more than 1 MiB, "
+            "edited with --copy (bounds; a terminal set / regex about the label of the large file) and in place twice, judged line by line; "
+            "with --copy: every file of the source hashed before/after, no file of the copy may be the same file (device, inode) as one of the source; "
             "non-trivial = some but not all structures removed; distinct by (grammar.txt, options)")
     return {"evaluations": dist["runs"], "distinct_nontrivial": nontrivial, "rule": rule, "samples": samples,
             "corr": corr, "violations": vio, "dist": dist}
 
 
 def replay(ctx, data):
+    """the recorded history again: build the source ruleset (generated / trained by the real trainer / large, from its recipe),
+    the first edit (with --copy when recorded), then the second edit of the result when recorded; all oracles of run()"""
     inp = data.get("input") or {}
-    if "ruleset" not in inp:
+    if "ruleset" not in inp and "train" not in inp:
         return []
-    rs, opt = inp["ruleset"], inp["options"]
-    code = common.copy_code_tree(common.scratch())
-    rules = os.path.join(code, "Rules")
-    env = common.subenv()
-    env["PYTHONPATH"] = code
-    rd = os.path.join(rules, rs["name"])
-    rulesets.write_ruleset(rs, rd)
-    args = [common.PY, "edit_rules.py", "-r", rs["name"]]
-    if "min" in opt:
-        args += ["--min_length", str(opt["min"]), "--max_length", str(opt["max"])]
-    if "set" in opt:
-        args += ["--terminal_set", opt["set"]]
-    if "regex" in opt:
-        args += ["--regex", opt["regex"]]
-    p = subprocess.run(args, cwd=code, env=env, stdout=subprocess.PIPE, stderr=subprocess.PIPE, timeout=60)
-    if p.returncode != 0:
-        return [{"sig": "C20:raised", "what": p.stderr.decode()[-200:], "replay": inp}]
-    try:
-        per, _ = guess_lengths(rules, rs["name"], common.scratch())
-    except GuesserFailed as e:
-        return [{"sig": "C20:guesser-fails-on-edited-ruleset", "what": str(e), "replay": inp}]
-    mn, mx = opt.get("min", 0), opt.get("max", 0)
-    if "min" in opt:
-        for s, ls in per.items():
-            bad = [l for l in ls if l < mn or (mx and l > mx)]
-            if bad:
-                return [{"sig": "C20:length-bound:" + ("context-label" if "X" in s else "plain"),
-                         "what": "kept structure %s yields guesses of length %s outside [%d,%s]" % (s, sorted(bad)[:4], mn, mx or "inf"), "replay": inp}]
-    return []
+    E = Env()
+    name = inp["ruleset"]["name"] if "ruleset" in inp else "TR0"
+    err = build_source(E, inp, name)
+    if err:
+        return [{"sig": "C20:replay-cannot-build-source", "what": err, "replay": inp}]
+    trained, large = "train" in inp, "large" in inp
+    kw = {"lengths": not large, "skip_markov": trained, "timeout": 600}
+    st = edit_step(E, name, inp["options"], (name + "c") if inp.get("copy") else None, inp, **kw)
+    vio = list(st["vio"])
+    if "then" in inp and st["after"]:
+        vio += edit_step(E, st["target"], inp["then"], None, inp, ":second-edit", **kw)["vio"]
+    return vio
